@@ -551,6 +551,15 @@ def cond_switches(b):
             if r["k"] == "un" and r["a"]["k"] != "const" and not r["a"]["p"]["pr"]:
                 cur = r["a"]["p"]["l"]
                 continue
+            # `match (v.get(i), flag) { (None, _) => .. }`: the discriminant of an Option kept in a tuple slot
+            if r["k"] == "discr":
+                dp = r["p"]
+                if not dp["pr"]:
+                    cur = dp["l"]
+                    continue
+                if len(dp["pr"]) == 1 and isinstance(dp["pr"][0], dict) and "f" in dp["pr"][0]:
+                    cur, fld = dp["l"], dp["pr"][0]["f"]
+                    continue
             break
     return by_stmt, by_call
 
